@@ -24,6 +24,8 @@ func init() {
 			// the read-back of what was merged sees every commit (shared with C05)
 			checkWitnessAll(c, "R5.3")
 			checkIdentityMergeAllVerdict(c)
+			checkNewOnlyWhenRefAbsent(c)
+			checkActionsAtomic(c, eff)
 		})
 	register("C09",
 		"Static shape of the identity history rules: (*Identity).Merge moves the ref only after appending, reports true exactly where it moved the ref, and never refuses after moving it; identity.MergeAll reports Updated/Nothing according to that result, validates before touching refs and keeps going after a refused identity; every store to Identity.versions is an append to the same field or the initialisation of a fresh Identity; Identity.Id reads version 0 only; Identity.Validate and version.Validate contain the documented refusals with the right polarity; identity.read refuses a ref whose name is not the first version's id.",
@@ -38,6 +40,7 @@ func init() {
 			checkIdentityReadIdGuard(c, "R9.5")
 			checkFirstVersionFrozen(c)
 			checkIdentityMergeAllVerdict(c)
+			checkNewOnlyWhenRefAbsent(c)
 			// what a long-running process serves and edits after a pull is the merged identity
 			checkCacheMergeFold(c, "R2.6")
 		})
